@@ -311,9 +311,18 @@ def r_strat(ctx, view):
         if t["k"] == "switch":
             d = strip(vp.operand(f, t["discr"]))
             if d[0] == "binop" and d[1] in ("Gt", "Lt", "Ge", "Le"):
-                ca, cb = component(d[2]), component(d[3])
-                if ca and cb and ca[0] == "size" and cb[0] == "size":
-                    ra, rb = param_index(ca[1]), param_index(cb[1])
+                def size_owner(x):
+                    # `s.size`, or `s.len()` (Store::len is the size field: R-READERS)
+                    x = strip(x)
+                    c = component(x)
+                    if c and c[0] == "size":
+                        return param_index(c[1])
+                    if x[0] == "call" and x[1].endswith("Store::len") or (x[0] == "call" and x[1].split("::")[-1] == "len" and len(x) > 3 and x[2]
+                                                                           and view.fx.call_info(prog.fn(x[3][0]), x[3][1]).local_callee == "store::Store::len"):
+                        return param_index(x[2][0])
+                    return None
+                ra, rb = size_owner(d[2]), size_owner(d[3])
+                if ra is not None and rb is not None:
                     guard = (d[1], ra, rb, bi, t)
     ok = False
     why = "no comparison of the two sizes found"
@@ -380,6 +389,28 @@ def r_strat(ctx, view):
         ctx.ob("R-STRAT", "%s::append:delegates" % QNAME[Q], ok, q.loc(),
                "Store::append(self.store, other.store) on every path, once" if ok else
                "Store::append(self.store, other.store) is called at %d site(s) / not on every path" % len(sites))
+
+
+    # the queue-level bulk constructors reach only Store-level strategies with THEIR duplicate policy: which strategy runs may
+    # not depend on anything the caller cannot see (round 9: `from_iter` choosing `Store::from(vec)` for an inexact size hint)
+    FIRST = {"<store::Store as From<Vec>>::from"}
+    LAST = {"<store::Store as FromIterator<(..)>>::from_iter", "<store::Store as Extend<(..)>>::extend"}
+    for Q in QUEUES:
+        LASTQ = LAST | {Q + "::push", "<%s as Extend<(..)>>::extend" % Q}
+        for key, want, wrong, txt in (
+                ("<%s as FromIterator<(..)>>::from_iter" % Q, LASTQ, FIRST, "the last pair given for an item wins"),
+                ("<%s as From<Vec>>::from" % Q, FIRST, LASTQ, "the first pair given for an item stays")):
+            q = prog.fn(key)
+            ctx.anchor(key, q is not None)
+            r = view.fx.reach(key) - {key}
+            bad = sorted(r & wrong)
+            good = sorted(r & want)
+            if not bad and not good:
+                ctx.undecided.append("R-STRAT %s: reaches no Store-level bulk strategy; its duplicate policy is not decided here" % short(key))
+                continue
+            ctx.ob("R-STRAT", "%s:duplicate-policy" % short(key), not bad, q.loc(),
+                   "%s: builds its store through %s" % (txt, [short(x) for x in good]) if not bad else
+                   "%s, but the function can also build its store through %s, whose policy is the opposite one" % (txt, [short(x) for x in bad]))
 
 
 # ------------------------------------------------------------------------------------------
@@ -897,7 +928,20 @@ def r_side(ctx, view):
                            (DPQ + "::into_descending_sorted_vec", DPQ + "::pop_max")):
         f = prog.fn(fkey)
         ctx.anchor(fkey, f is not None)
-        pops = [bb for bb, _ in f.calls() if fx.call_info(f, bb).local_callee == callee]
+        # the popper: the pop itself, or one step of the crate's sorted iterator over `self` (whose next / next_back is that
+        # pop: the three `fwd` obligations above) - directly or through `&mut I` / `by_ref()`
+        itm = {PQ + "::pop": ("<priority_queue::iterators::IntoSortedIter as Iterator>::next", "next"),
+               DPQ + "::pop_min": ("<double_priority_queue::iterators::IntoSortedIter as Iterator>::next", "next"),
+               DPQ + "::pop_max": ("<double_priority_queue::iterators::IntoSortedIter as DoubleEndedIterator>::next_back", "next_back")}[callee]
+        pops = []
+        for bb, _ in f.calls():
+            ci = fx.call_info(f, bb)
+            if ci.local_callee == callee or ci.local_callee == itm[0]:
+                pops.append(bb)
+            elif ci.local_callee is None and ci.name == itm[1]:
+                cbs = set(ci.closures or []) | set(fx.callbacks(f, bb) or [])
+                if itm[0] in cbs and not any(k.endswith("::next") or k.endswith("::next_back") for k in cbs - {itm[0]}):
+                    pops.append(bb)
         others = [fx.call_info(f, bb).local_callee for bb, _ in f.calls() if fx.call_info(f, bb).local_callee and fx.call_info(f, bb).local_callee != callee
                   and fx.call_info(f, bb).local_callee.split("::")[-1].startswith("pop")]
         ok = len(pops) == 1 and not others and bool(f.cfg.in_loop(pops[0])) if pops else False
@@ -1012,6 +1056,8 @@ def r_serde(ctx, view):
             c = component(x)
             if c:
                 return c[0] == "map"
+            if x[0] == "param" and x[2] == 1 and hops > 1:
+                return True   # `self.iter()` / `(&self).into_iter()`: the Store's own whole-map view (R-READERS)
             if x[0] == "call" and x[1].split("::")[-1] in ("iter", "into_iter", "by_ref", "as_slice") and len(x[2]) == 1:
                 x = strip(x[2][0])
                 continue
@@ -1031,14 +1077,17 @@ def r_serde(ctx, view):
     names = [t["func"]["name"] for bb, t in de.calls() if "func" in t]
     ctx.ob("R-SERDE", "Store::deserialize:requests-a-sequence", names == ["deserialize_seq"], de.loc(), "calls %s" % names)
     vs = prog.fn("<store::serde::StoreVisitor as Visitor>::visit_seq")
-    ctx.anchor("StoreVisitor::visit_seq", vs is not None)
-    ne = [t for g in prog.family(vs.key) for bb, t in g.calls() if "func" in t and t["func"]["name"] == "next_element"]
-    okne = False
-    tys = []
-    if ne:
-        tys = [x["s"] for x in ne[0]["func"]["gargs"]]
-        okne = any(x.replace(" ", "") == "(I,P)" for x in tys)
-    ctx.ob("R-SERDE", "visit_seq:element-is-(item,priority)", okne, vs.loc(), "next_element::<%s>: same arity and order as the writer" % tys)
+    if vs is None:
+        # deferred (like the floors): the other rules still report what the code that took its place does
+        ctx.blind.append("anchor lost: StoreVisitor::visit_seq")
+    else:
+        ne = [t for g in prog.family(vs.key) for bb, t in g.calls() if "func" in t and t["func"]["name"] == "next_element"]
+        okne = False
+        tys = []
+        if ne:
+            tys = [x["s"] for x in ne[0]["func"]["gargs"]]
+            okne = any(x.replace(" ", "") == "(I,P)" for x in tys)
+        ctx.ob("R-SERDE", "visit_seq:element-is-(item,priority)", okne, vs.loc(), "next_element::<%s>: same arity and order as the writer" % tys)
     # both queue kinds delegate to the Store impls (so either kind reads the other's output) and re-sift
     for Q in QUEUES:
         s = prog.fn("<%s as Serialize>::serialize" % Q)
@@ -1252,7 +1301,8 @@ def r_readers(ctx, view):
     for name, lookups in (("get_priority", KEYED), ("get", ("get_full", "get_key_value", "get_full_mut2")), ("get_mut", ("get_full_mut2",))):
         f = prog.fn("store::Store::" + name)
         ctx.anchor("Store::" + name, f is not None)
-        r = ret_term(view, f)
+        from .core import deep_ret as _dr
+        r = _dr(view, f)   # through a delegation to a sibling accessor (`get_priority` written through `get`)
         cs = [c for c in _calls_in(r) if c[2] and component(c[2][0]) and component(c[2][0])[0] == "map"]
         cs = list({(c[1], c[3] if len(c) > 3 else None): c for c in cs}.values())   # one lookup however often its result is mentioned
         ok = len(cs) == 1 and cs[0][1].split("::")[-1] in lookups and len(cs[0][2]) == 2 and is_param(cs[0][2][1], 2)
@@ -1295,7 +1345,10 @@ def r_readers(ctx, view):
     if okc:
         cr = strip(ret_term(view, mappers[0]))
         okc = cr[0] == "field" and cr[2] in (0, "0") and strip(cr[1])[0] in ("cparam", "param")
-    ok = "collect" in names and "into_iter" in names and okc and any(c[1].split("::")[-1] == "into_iter" and component(c[2][0]) and component(c[2][0])[0] == "map" for c in _calls_in(r))
+    # over the map's own consuming iterator, or over the Store's (checked just above to wrap it; its `next` is wired by R-ESI)
+    ok = "collect" in names and "into_iter" in names and okc and any(
+        c[1].split("::")[-1] == "into_iter" and c[2] and ((component(c[2][0]) and component(c[2][0])[0] == "map") or
+                                                          is_param(c[2][0], 1)) for c in _calls_in(r))
     if not ok:
         # `self.map.into_keys().collect()`: the items, by indexmap's own projection
         ok = "collect" in names and not mappers and any(c[1].split("::")[-1] == "into_keys" and c[2] and component(c[2][0]) and component(c[2][0])[0] == "map" for c in _calls_in(r))
